@@ -77,6 +77,21 @@ def _worker(args):
     try:
         # the clang AST cache is keyed by content digest, so scratch copies share it safely
         for v in variants:
+            if v.get("patch"):
+                r = subprocess.run(["patch", "-p1", "-s", "-f", "--no-backup-if-mismatch", "-i", v["patch"]], cwd=scratch, capture_output=True, text=True)
+                if r.returncode != 0:
+                    subprocess.run(["patch", "-p1", "-R", "-s", "-f", "--no-backup-if-mismatch", "-i", v["patch"]], cwd=scratch, capture_output=True)
+                    shutil.rmtree(scratch, ignore_errors=True)
+                    scratch = make_scratch(repo)
+                    res.append((v["name"], "SKIP", "patch no longer applies"))
+                    continue
+                try:
+                    rc, out = run_quiet(v["prop"], scratch)
+                finally:
+                    subprocess.run(["patch", "-p1", "-R", "-s", "-f", "--no-backup-if-mismatch", "-i", v["patch"]], cwd=scratch, capture_output=True)
+                ok = rc == 1
+                res.append((v["name"], "OK" if ok else "FAIL", "fires" if ok else "seeded change no longer detected; rc=%d %s" % (rc, _viol(out))))
+                continue
             p, orig = apply_variant(scratch, v)
             if p is None:
                 res.append((v["name"], "SKIP", "edit anchor not found (source changed?)"))
@@ -108,10 +123,27 @@ def _viol(out):
     return " | ".join(ls)
 
 
+def seeded_variants():
+    """The independently written breaking changes kept under /verif/seeded/<id>/ (patch.diff + meta.json)."""
+    import json
+    res = []
+    d = os.path.join(core.VERIF, "seeded")
+    if not os.path.isdir(d):
+        return res
+    for name in sorted(os.listdir(d)):
+        mp = os.path.join(d, name, "meta.json")
+        pp = os.path.join(d, name, "patch.diff")
+        if os.path.exists(mp) and os.path.exists(pp):
+            meta = json.load(open(mp))
+            if meta.get("caught"):
+                res.append(dict(prop=meta["property"], name="seeded/" + name, patch=pp, expect="*", file=None, old=None, new=None, where=None))
+    return res
+
+
 def run_for(prop, jobs=None, repo=None):
     from . import mutants
     repo = repo or os.environ.get("VERIF_REPO", "/repo")
-    vs = [v for v in mutants.VARIANTS if prop in ("ALL", v["prop"])]
+    vs = [v for v in mutants.VARIANTS + seeded_variants() if prop in ("ALL", v["prop"])]
     if not vs:
         print("selftest %s: no seeded variants registered" % prop)
         return 0
